@@ -511,6 +511,12 @@ func genCase(r *gen.Rand, idx int, extra bool) *Case {
 		if res == 0 && c.X == "rename" && staleKey(w) {
 			break // a stale map key makes every later lookup of that policy diverge: one finding per case
 		}
+		if res == 0 && c.X == "rename" && c.M == 0 {
+			// a policy named "" now exists. Internal calls that address a policy by its Name (SchemaClean ->
+			// MarkMeasurementDelete(db, "", ..)) then act on the DEFAULT policy instead; the model marks in place. The rename
+			// itself is compared; generated cases end here (the scripted corpus case goes on with commands that do not prune)
+			break
+		}
 		if res == 2 {
 			break // the state machine panicked: the process is gone
 		}
